@@ -1,3 +1,4 @@
+import Snel.Gen.C15
 /-!
 Model of the sequence-query core:
 
@@ -16,6 +17,8 @@ Strings are byte lists (`List Nat`) so that every definition reduces in the kern
 Column kinds modelled: typed i64 with null bitmap (`Cell.int`) and var-bytes strings
 (`Cell.str`) — the two kinds `SequenceStreamMerger::batches_to_zones` produces. Typed
 u64/f64/bool columns are not modelled (`get_u64_at`/`get_f64_at` answer `none`).
+The special link-field names, the fallback time value and (via `Snel.Lemmas.Sequence.relations_tied`)
+the two time relations come from `Snel.Gen.C15`, regenerated from the Rust text on every check.
 Loops are written with fuel (`|A| + |B|` iterations suffice); each arm is one arm of the Rust
 `while`. The iteration order of the `HashMap` of groups is an input (`order`).
 -/
@@ -80,10 +83,10 @@ inductive Key where
   | str (s : Str)
   deriving DecidableEq, Repr
 
-/-- "context_id" -/
-def ctxName : Str := [99, 111, 110, 116, 101, 120, 116, 95, 105, 100]
-/-- "timestamp" -/
-def tsName : Str := [116, 105, 109, 101, 115, 116, 97, 109, 112]
+/-- "context_id" (generated from `extract_link_value`) -/
+def ctxName : Str := Snel.Gen.C15.ctxName
+/-- "timestamp" (generated from `extract_link_value`) -/
+def tsName : Str := Snel.Gen.C15.tsName
 
 def linkOf (lf : Str) (r : Row) : Option Key :=
   if lf = ctxName then (getStr r lf).map Key.str
@@ -100,7 +103,7 @@ def toU64 (t : Int) : Nat := (t % (2 ^ 64 : Int)).toNat
 def tsOf (tf : Str) (r : Row) : Nat :=
   match getI64 r tf with
   | some t => toU64 t
-  | none => 0
+  | none => Snel.Gen.C15.missingTs   -- `unwrap_or(0)`
 
 /-! ### WHERE -/
 
